@@ -5,6 +5,7 @@ import Verif.Model.Mixin
 import Verif.Spec.Mixin
 import Verif.Model.Index
 import Verif.Spec.Index
+import Verif.Model.OpsDriver
 import Verif.Generated.Facts
 
 open Lean
@@ -26,6 +27,7 @@ def dispatch (op : String) (inp : J) (impl : Option J) : J :=
             ("implExpected", match implDoc with | some d => .bool (d == Spec.Fixer.expected inp) | none => .null)])]
   | "analyze" =>
     .obj [("model", Index.toJson (Analyzer.analyze facts inp)), ("spec", Spec.Index.expected inp)]
+  | "ops" => .obj [("answers", OpsDriver.run facts inp)]
   | "mixin" =>
     let primary := (inp.get? "primary").getD .null
     let mixins := inp.getArr "mixins"
